@@ -18,6 +18,7 @@ Events (JSON-able):
   ['adv', dt]              virtual time passes, nothing fires
   ['expire', tid]          timer tid (creation order) wakes up, if armed and due
   ['run', tid]             timer tid executes its function, if it has expired
+  ['flushall']             5 s pass, then every existing timer wakes up (if armed) and runs (if woken up) once
   ['advfire', dt]          ideal timing: time passes and every timer fires exactly at its deadline, in deadline order
                            (expanded by the harness into adv/expire/run for the model)
 """
@@ -144,6 +145,15 @@ class Run:
                 self.step(['run', t.tid])
             if end > self.now:
                 self.step(['adv', end - self.now])
+            return
+        if k == 'flushall':
+            # let every timer that exists now fire once, long after its deadline (leftover timers included)
+            self.step(['adv', 5000])
+            tids = [t.tid for t in self.timers]
+            for tid in tids:
+                self.step(['expire', tid])
+            for tid in tids:
+                self.step(['run', tid])
             return
         self.expanded.append(ev)
         if k == 'send':
